@@ -1761,8 +1761,17 @@ def _i_abs(args, kw):
     return py_abs(args[0])
 
 
+def _scalar_of_array(args, what):
+    """float(arr) / int(arr): numpy converts only arrays of exactly one element, anything else is a TypeError"""
+    a = args[0] if args else None
+    if a is not None and hasattr(a, "_symarray") and hasattr(a, "e") and len(a.e) != 1:
+        CTX.err(True, f"TypeError(only length-1 arrays can be converted to Python scalars: {what})")
+        raise PathEnd()
+
+
 @intrinsic(float)
 def _i_float(args, kw):
+    _scalar_of_array(args, "float")
     if args and not is_sym(args[0]):
         return _native(float, args, kw)
     return to_float(args[0]) if args else 0.0
@@ -1770,6 +1779,7 @@ def _i_float(args, kw):
 
 @intrinsic(int)
 def _i_int(args, kw):
+    _scalar_of_array(args, "int")
     if args and not is_sym(args[0]):
         return _native(int, args, kw)
     return to_int(args[0]) if args else 0
